@@ -66,6 +66,8 @@ TReset ==
 TNewWriter ==
   /\ Ev.ev = "new_writer"
   /\ IF Ev.ok THEN ~wopen /\ wopen' = TRUE /\ lo' = metaop /\ wCreated' = metaop /\ pend' = commd /\ dirty' = FALSE
+                   \* a new writer starts from the opstamp of the last commit
+                   /\ ("commit_opstamp" \in DOMAIN Ev => Ev.commit_opstamp = metaop)
      ELSE wopen /\ UNCHANGED <<wopen, lo, wCreated, pend, dirty>>   \* C18: fails iff one exists
   /\ UNCHANGED <<commd, metaop, payload, sorted, kf>>
 
